@@ -597,7 +597,7 @@ func (r *runner) createTasks(ctx context.Context, nodeMap map[string]any, optMap
 		}
 
 		nextTasks = append(nextTasks, &task{
-			ctx:     forwardCheckPoint(setNodeKey(ctx, nodeKey), nodeKey),
+			ctx:     clearCheckPoint(setNodeKey(ctx, nodeKey)),
 			nodeKey: nodeKey,
 			call:    call,
 			input:   nodeInput,
